@@ -23,6 +23,7 @@ func checkC19(w *World, r *Report, tier string) propMeta {
 	c19R6(w, r)
 	c14R2(w, r, "C19.R7")
 	c20R8(w, r, "C19.R10")
+	c03R7(w, r, "C19.R11") // a failed chunk read leaves no released buffer behind in the cursor (released twice ⇒ two scans share one array ⇒ rows that were never written)
 	c19R8(w, r)
 	c19R9(w, r)
 	return propMeta{
